@@ -218,8 +218,8 @@ def ranking_problems(r):
     if sum(len(b) for b in buckets) != len(pos_expected):
         probs.append(("C16/ranking-buckets-overlap", str(r)))
     for b in buckets:
-        if len(b) == 0:
-            probs.append(("C16/ranking-empty-bucket", str(r)))
+        # (an empty bucket is not a disagreement between views: the constructor accepts it, and the derived constructions
+        # that must not produce one -- unification, projection -- are compared with their model bucket by bucket)
         for e in b:
             if not isinstance(e, ck.Element) or e.type is not type(e.value):
                 probs.append(("C16/ranking-bad-element", repr(e)))
@@ -267,7 +267,7 @@ def dataset_problems(d):
     if len(types) > 1:
         probs.append(("C16/heterogeneous-element-types", f"{types}"))
     elif types:
-        all_intlike = all(ref.int_like(v) for _, v in uni)
+        all_intlike = all(ref.int_like(v) for _, v in uni) and len({int(v) for _, v in uni}) == len(uni)
         t = next(iter(types))
         if all_intlike and t is not int:
             probs.append(("C16/int-like-names-kept-as-str", f"{sorted(map(repr, uni))[:6]}"))
@@ -276,7 +276,7 @@ def dataset_problems(d):
     complete = all({(type(e.value), e.value) for b in r.buckets for e in b} == uni for r in rankings)
     if bool(d.is_complete) != complete:
         probs.append(("C16/is-complete-flag-wrong", f"flag={d.is_complete} actual={complete}"))
-    noties = all(len(b) == 1 for r in rankings for b in r.buckets)
+    noties = all(len(b) <= 1 for r in rankings for b in r.buckets)
     if bool(d.without_ties) != noties:
         probs.append(("C16/without-ties-flag-wrong", f"flag={d.without_ties} actual={noties}"))
     # matrices
